@@ -216,3 +216,19 @@ Example C06_dup_psi_example :
   all_groups [([], exA); ([], exB); ([], exA'); ([], exB'); ([], exP); ([], exP)] =
     [(0, [exA; exB]); (0, [exA'; exB']); (0, [exP]); (0, [exP])].
 Proof. exact dup_psi_example. Qed.
+(* ---- the accumulator of the theorems above IS the source ----
+   Gen/PoolGen.v is translated from the current /repo/packet_pool.go on every run (go/gen/stateful.go). acc_add — the
+   duplicate test, the discontinuity reset, the flush on a unit start, the early PSI flush, in the order the Go code
+   performs them — is the regenerated packetAccumulator.add, and pool_add (which pool_run / all_groups iterate) is the
+   regenerated packetPool.addUnlocked. A change to either body breaks these proofs. *)
+Require Import Gen.PoolGen Proofs.PoolGenEq.
+
+Theorem C06_acc_is_source : forall pm pid q p,
+  acc_add pm pid q p = packetAccumulator_add is_psi_complete pid (Some (pm_mem pm)) q p.
+Proof. exact acc_add_is_generated. Qed.
+Print Assumptions C06_acc_is_source.
+
+Theorem C06_pool_is_source : forall pm pl p,
+  pool_add pm pl p = packetPool_addUnlocked (gen_get pm) gen_set is_psi_complete pl (Some (pm_mem pm)) p.
+Proof. exact pool_add_is_generated. Qed.
+Print Assumptions C06_pool_is_source.
